@@ -119,88 +119,7 @@ def run(check):
 
   # ------------------------------------------------------------------ normalisation
   r_n = check.rule('R-C12-normalisation', 4, 'only "-1 -> now" and the resolution floor alter an admitted datapoint, in that order')
-  for e in emits:
-    call = [c for c in g.calls(e) if T.event_origin(c.func, fn.module, fn) == EV][0]
-    if len(call.args) != 2 or not all(isinstance(a, ast.Name) for a in call.args):
-      r_n.cannot_decide('dispatch call is not events.metricReceived(<name>, <name>)')
-      continue
-    a_m, a_d = call.args
-    if reaching_defs(g, a_m.id, e) == [g.entry] and a_m.id == mvar:
-      r_n.ok('metric name passed on unchanged', fn.loc(call))
-    else:
-      r_n.violate('metric name altered', fn, call, 'the metric name dispatched is not the unmodified `%s` parameter' % mvar)
-    defs = [d for d in reaching_defs(g, a_d.id, e)]
-    if a_d.id != dvar:
-      r_n.cannot_decide('dispatched datapoint is not the `%s` variable' % dvar)
-      continue
-    all_defs = [d for d in g.nodes if d.kind == 'stmt' and isinstance(d.ast, ast.Assign) and
-                any(isinstance(t, ast.Name) and t.id == dvar for t in d.ast.targets)]
-    now_defs, floor_defs = [], []
-    for d in all_defs:
-      v = d.ast.value
-      if not (isinstance(v, ast.Tuple) and len(v.elts) == 2):
-        r_n.violate('datapoint rebuilt', fn, d.ast, 'the datapoint is replaced by `%s`, not by (new timestamp, same value)' % short(v))
-        continue
-      if unparse(v.elts[1]).replace(' ', '') != '%s[1]' % dvar and not _derives_component(g, d, v.elts[1], dvar, 1):
-        r_n.violate('value altered', fn, d.ast, 'the value component of an admitted datapoint is replaced by `%s`' % unparse(v.elts[1]))
-        continue
-      t0 = v.elts[0]
-      if isinstance(t0, ast.Call) and (dotted(t0.func) or '') in ('time.time', 'time'):
-        now_defs.append(d)
-      elif any(isinstance(x, ast.BinOp) and isinstance(x.op, ast.FloorDiv) for x in ast.walk(t0)) or \
-          (isinstance(t0, ast.Name) and any(isinstance(x, ast.BinOp) and isinstance(x.op, ast.FloorDiv)
-                                            for rd in reaching_defs(g, t0.id, d) if rd is not g.entry
-                                            for x in ast.walk(rd.ast))):
-        floor_defs.append(d)
-      else:
-        r_n.violate('timestamp altered', fn, d.ast, 'the timestamp of an admitted datapoint is replaced by `%s`, which is neither '
-                    'the current time nor a floor to the resolution' % unparse(t0))
-    # (a) the "-1" guard
-    for d in now_defs:
-      def minus1(a, lab, b):
-        if not (isinstance(lab, tuple) and lab[0] == 'T'):
-          return False
-        t = lab[1]
-        return isinstance(t, ast.Compare) and len(t.ops) == 1 and isinstance(t.ops[0], ast.Eq) and \
-          unparse(t.comparators[0]).replace(' ', '') == '-1'
-      if d in g.reach([g.entry], removed_edge=minus1, normal_only=True):
-        r_n.violate('timestamp replaced without the -1 test', fn, d.ast, 'the timestamp is replaced by the current time on a path '
-                    'that did not find it equal to -1')
-      else:
-        r_n.ok('"now" substituted only under `== -1`', fn.loc(d.ast))
-      # the tested operand must be the raw timestamp (not a floored one)
-      for (a, lab, b) in g.test_edges(lambda pol, t, n: pol == 'T' and isinstance(t, ast.Compare) and len(t.ops) == 1 and
-                                      isinstance(t.ops[0], ast.Eq) and unparse(t.comparators[0]).replace(' ', '') == '-1'):
-        left = lab[1].left
-        if not _raw_timestamp(g, a, left, dvar):
-          r_n.violate('-1 tested after flooring', fn, lab[1], 'the `== -1` test is applied to `%s`, which is not (only) the raw '
-                      'timestamp of the datapoint: once floored to MIN_TIMESTAMP_RESOLUTION, -1 is no longer recognised'
-                      % unparse(left))
-        else:
-          r_n.ok('-1 tested on the raw timestamp', fn.loc(lab[1]))
-      # the floor applies to the substituted time as well
-      res_false = lambda a, lab, b: isinstance(lab, tuple) and lab[0] == 'F' and _is_resolution(g, a, lab[1])   # noqa
-      rr2 = g.reach(g.after(d), removed_nodes=set(floor_defs), removed_edge=res_false, normal_only=True)
-      if any(e2 in rr2 for e2 in emits):
-        r_n.violate('substituted time not floored', fn, d.ast, 'after the timestamp was replaced by the current time the datapoint '
-                    'can be dispatched without the MIN_TIMESTAMP_RESOLUTION floor having been applied (or found disabled)')
-      else:
-        r_n.ok('the floor is applied after the "now" substitution', fn.loc(d.ast))
-    if not now_defs:
-      r_n.violate('-1 not replaced', fn, None, 'no statement replaces a timestamp of -1 by the current time',
-                  construct='datapoint = (time.time(), datapoint[1])')
-    # (b) the floor guard
-    for d in floor_defs:
-      res_true = lambda a, lab, b: isinstance(lab, tuple) and lab[0] == 'T' and _is_resolution(g, a, lab[1])   # noqa
-      if d in g.reach([g.entry], removed_edge=res_true, normal_only=True):
-        r_n.violate('floor without resolution', fn, d.ast, 'the timestamp is floored on a path where MIN_TIMESTAMP_RESOLUTION was '
-                    'not found set')
-      else:
-        txt = unparse(d.ast.value.elts[0]).replace(' ', '')
-        r_n.ok('floor only when MIN_TIMESTAMP_RESOLUTION is set: %s' % txt, fn.loc(d.ast))
-    if not floor_defs:
-      r_n.violate('resolution floor missing', fn, None, 'no statement floors the timestamp to MIN_TIMESTAMP_RESOLUTION',
-                  construct='timestamp // res * res')
+  rule_normalisation(check, cx, r_n)
 
   # ------------------------------------------------------------------ single gate
   r_g = check.rule('R-C12-single-gate', 4, 'every listener protocol goes through the one admission function')
@@ -327,6 +246,137 @@ def run(check):
   else:
     r_l.violate('list files', bs, None, 'the whitelist/blacklist files are not loaded into their own lists: %s' % loads,
                 construct='read_from')
+
+
+def rule_normalisation(check, cx, r_n):
+  """only "-1 -> now" and the resolution floor alter an admitted datapoint, in that order (shared with C01 and C15)."""
+  repo, T = check.repo, check.types
+  mr = repo.cls('carbon.protocols', 'MetricReceiver')
+  fn = mr.methods.get('metricReceived')
+  if fn is None:
+    r_n.cannot_decide('MetricReceiver.metricReceived not found')
+    return
+  g = cx.cfg(fn)
+  params = fn.params
+  mvar, dvar = params[1], params[2]
+  emits = nodes_calling(g, lambda c: T.event_origin(c.func, fn.module, fn) == EV)
+  for e in emits:
+    call = [c for c in g.calls(e) if T.event_origin(c.func, fn.module, fn) == EV][0]
+    if len(call.args) == 2 and isinstance(call.args[0], ast.Name) and isinstance(call.args[1], ast.Tuple) and \
+       len(call.args[1].elts) == 2:
+      # the datapoint is rebuilt in the call itself: judge its two components directly
+      a_m = call.args[0]
+      t0, v1 = call.args[1].elts
+      if reaching_defs(g, a_m.id, e) == [g.entry] and a_m.id == mvar:
+        r_n.ok('metric name passed on unchanged', fn.loc(call))
+      else:
+        r_n.violate('metric name altered', fn, call, 'the metric name dispatched is not the unmodified `%s` parameter' % mvar)
+      if unparse(v1).replace(' ', '') == '%s[1]' % dvar and reaching_defs(g, dvar, e) == [g.entry] or _derives_component(g, e, v1, dvar, 1):
+        r_n.ok('value component passed on unchanged', fn.loc(call))
+      else:
+        r_n.violate('value altered', fn, call, 'the value component dispatched is `%s`, not the received value' % unparse(v1))
+      if isinstance(t0, ast.Name):
+        for d in reaching_defs(g, t0.id, e):
+          v = value_assigned(d, t0.id) if d is not g.entry else None
+          vt = unparse(v).replace(' ', '') if isinstance(v, ast.AST) else str(v)
+          if isinstance(v, ast.AST) and (vt == '%s[0]' % dvar or _derives_component(g, d, v, dvar, 0)):
+            continue
+          if isinstance(v, ast.AST) and any(isinstance(x, ast.BinOp) and isinstance(x.op, ast.FloorDiv) for x in ast.walk(v)):
+            res_true = lambda a, lab, b: isinstance(lab, tuple) and lab[0] == 'T' and _is_resolution(g, a, lab[1])   # noqa
+            if d not in g.reach([g.entry], removed_edge=res_true, normal_only=True):
+              continue
+          if isinstance(v, ast.AST) and 'time' in vt and 'time(' in vt:
+            m1 = lambda a, lab, b: isinstance(lab, tuple) and lab[0] == 'T' and isinstance(lab[1], ast.Compare) and \
+              isinstance(lab[1].ops[0], ast.Eq) and unparse(lab[1].comparators[0]).replace(' ', '') == '-1'   # noqa
+            if d not in g.reach([g.entry], removed_edge=m1, normal_only=True) and vt in ('time.time()', 'time()', 'int(time.time())', 'int(time())'):
+              continue
+          r_n.violate('timestamp altered', fn, d.ast if d is not g.entry else call, 'the timestamp dispatched can be `%s`: an admitted '
+                      'datapoint whose timestamp is neither -1 nor subject to MIN_TIMESTAMP_RESOLUTION must keep the timestamp it was '
+                      'sent with (e.g. int() drops the fractional part)' % vt)
+      elif unparse(t0).replace(' ', '') != '%s[0]' % dvar:
+        r_n.violate('timestamp altered', fn, call, 'the timestamp dispatched is `%s`' % unparse(t0))
+      continue
+    if len(call.args) != 2 or not all(isinstance(a, ast.Name) for a in call.args):
+      r_n.cannot_decide('dispatch call is not events.metricReceived(<name>, <name>)')
+      continue
+    a_m, a_d = call.args
+    if reaching_defs(g, a_m.id, e) == [g.entry] and a_m.id == mvar:
+      r_n.ok('metric name passed on unchanged', fn.loc(call))
+    else:
+      r_n.violate('metric name altered', fn, call, 'the metric name dispatched is not the unmodified `%s` parameter' % mvar)
+    defs = [d for d in reaching_defs(g, a_d.id, e)]
+    if a_d.id != dvar:
+      r_n.cannot_decide('dispatched datapoint is not the `%s` variable' % dvar)
+      continue
+    all_defs = [d for d in g.nodes if d.kind == 'stmt' and isinstance(d.ast, ast.Assign) and
+                any(isinstance(t, ast.Name) and t.id == dvar for t in d.ast.targets)]
+    now_defs, floor_defs = [], []
+    for d in all_defs:
+      v = d.ast.value
+      if not (isinstance(v, ast.Tuple) and len(v.elts) == 2):
+        r_n.violate('datapoint rebuilt', fn, d.ast, 'the datapoint is replaced by `%s`, not by (new timestamp, same value)' % short(v))
+        continue
+      if unparse(v.elts[1]).replace(' ', '') != '%s[1]' % dvar and not _derives_component(g, d, v.elts[1], dvar, 1):
+        r_n.violate('value altered', fn, d.ast, 'the value component of an admitted datapoint is replaced by `%s`' % unparse(v.elts[1]))
+        continue
+      t0 = v.elts[0]
+      if isinstance(t0, ast.Call) and (dotted(t0.func) or '') in ('time.time', 'time'):
+        now_defs.append(d)
+      elif any(isinstance(x, ast.BinOp) and isinstance(x.op, ast.FloorDiv) for x in ast.walk(t0)) or \
+          (isinstance(t0, ast.Name) and any(isinstance(x, ast.BinOp) and isinstance(x.op, ast.FloorDiv)
+                                            for rd in reaching_defs(g, t0.id, d) if rd is not g.entry
+                                            for x in ast.walk(rd.ast))):
+        floor_defs.append(d)
+      else:
+        r_n.violate('timestamp altered', fn, d.ast, 'the timestamp of an admitted datapoint is replaced by `%s`, which is neither '
+                    'the current time nor a floor to the resolution' % unparse(t0))
+    # (a) the "-1" guard
+    for d in now_defs:
+      def minus1(a, lab, b):
+        if not (isinstance(lab, tuple) and lab[0] == 'T'):
+          return False
+        t = lab[1]
+        return isinstance(t, ast.Compare) and len(t.ops) == 1 and isinstance(t.ops[0], ast.Eq) and \
+          unparse(t.comparators[0]).replace(' ', '') == '-1'
+      if d in g.reach([g.entry], removed_edge=minus1, normal_only=True):
+        r_n.violate('timestamp replaced without the -1 test', fn, d.ast, 'the timestamp is replaced by the current time on a path '
+                    'that did not find it equal to -1')
+      else:
+        r_n.ok('"now" substituted only under `== -1`', fn.loc(d.ast))
+      # the tested operand must be the raw timestamp (not a floored one)
+      for (a, lab, b) in g.test_edges(lambda pol, t, n: pol == 'T' and isinstance(t, ast.Compare) and len(t.ops) == 1 and
+                                      isinstance(t.ops[0], ast.Eq) and unparse(t.comparators[0]).replace(' ', '') == '-1'):
+        left = lab[1].left
+        if not _raw_timestamp(g, a, left, dvar):
+          r_n.violate('-1 tested after flooring', fn, lab[1], 'the `== -1` test is applied to `%s`, which is not (only) the raw '
+                      'timestamp of the datapoint: once floored to MIN_TIMESTAMP_RESOLUTION, -1 is no longer recognised'
+                      % unparse(left))
+        else:
+          r_n.ok('-1 tested on the raw timestamp', fn.loc(lab[1]))
+      # the floor applies to the substituted time as well
+      res_false = lambda a, lab, b: isinstance(lab, tuple) and lab[0] == 'F' and _is_resolution(g, a, lab[1])   # noqa
+      rr2 = g.reach(g.after(d), removed_nodes=set(floor_defs), removed_edge=res_false, normal_only=True)
+      if any(e2 in rr2 for e2 in emits):
+        r_n.violate('substituted time not floored', fn, d.ast, 'after the timestamp was replaced by the current time the datapoint '
+                    'can be dispatched without the MIN_TIMESTAMP_RESOLUTION floor having been applied (or found disabled)')
+      else:
+        r_n.ok('the floor is applied after the "now" substitution', fn.loc(d.ast))
+    if not now_defs:
+      r_n.violate('-1 not replaced', fn, None, 'no statement replaces a timestamp of -1 by the current time',
+                  construct='datapoint = (time.time(), datapoint[1])')
+    # (b) the floor guard
+    for d in floor_defs:
+      res_true = lambda a, lab, b: isinstance(lab, tuple) and lab[0] == 'T' and _is_resolution(g, a, lab[1])   # noqa
+      if d in g.reach([g.entry], removed_edge=res_true, normal_only=True):
+        r_n.violate('floor without resolution', fn, d.ast, 'the timestamp is floored on a path where MIN_TIMESTAMP_RESOLUTION was '
+                    'not found set')
+      else:
+        txt = unparse(d.ast.value.elts[0]).replace(' ', '')
+        r_n.ok('floor only when MIN_TIMESTAMP_RESOLUTION is set: %s' % txt, fn.loc(d.ast))
+    if not floor_defs:
+      r_n.violate('resolution floor missing', fn, None, 'no statement floors the timestamp to MIN_TIMESTAMP_RESOLUTION',
+                  construct='timestamp // res * res')
+
 
 
 def _derives_component(g, node, expr, dvar, idx):
